@@ -94,16 +94,17 @@ PROPS.update({
                                          "daemon shutdown with open connections and GC-driven __del__ ordering are outside the claim"],
     },
     "C12": {
-        "modules": _DISPATCH_MODS,
-        "contracts": [_HR, "Pyro5.server.Daemon._handshake", "Pyro5.server.Daemon._sendExceptionResponse#body"],
-        "harness": "replay/dispatch.py",
+        "modules": _DISPATCH_MODS + ["contracts.client_invoke"],
+        "contracts": [_HR, "Pyro5.server.Daemon._handshake", "Pyro5.server.Daemon._sendExceptionResponse#body", "Pyro5.client.Proxy._pyroInvoke"],
+        "harness": ["replay/dispatch.py", "replay/c03.py"],
         "explanation": "at every point where handleRequest runs user code the thread-local context holds this request's connection, sequence number, flags, serializer "
                        "id, annotations and a correlation id set during this request; every message sent by handleRequest, _handshake and _sendExceptionResponse carries only "
                        "daemon annotations plus annotations written during this request (ghost provenance on the annotation dict objects); the response-annotation dict "
                        "left by an earlier request is replaced by a fresh object at the start of every request and handshake (identity, which also cuts the sharing with a "
                        "oneway thread).",
-        "assumptions": _COMMON_ASSUME + ["threading.local gives each thread its own context object", "the oneway thread's to_global/from_global copy and the client side "
-                                         "(Proxy._pyroInvoke resets/sets response annotations) are covered by the bounded native harness only"],
+        "assumptions": _COMMON_ASSUME + ["threading.local gives each thread its own context object", "client side: after _pyroInvoke the thread's response annotations are this reply's annotations or a dict created during this call "
+                                         "(never one left by an earlier call), also on failure",
+                                         "the oneway thread's to_global/from_global copy is covered by the bounded native harness only"],
     },
     "C07": {
         "modules": _DISPATCH_MODS,
@@ -147,12 +148,20 @@ PROPS.update({
                                          "(class shapes x names x request kinds) in this version"],
     },
     "C03": {
-        "modules": _DISPATCH_MODS,
-        "contracts": [_HR, "Pyro5.protocol.recv_stub", "Pyro5.socketutil.SocketConnection.recv", "Pyro5.socketutil.SocketConnection.send"],
-        "harness": "replay/dispatch.py",
-        "explanation": "server side: a reply (result or error) carries the request's sequence number and serializer id, a non-oneway request gets exactly one, a oneway "
+        "modules": _DISPATCH_MODS + ["contracts.client_invoke"],
+        "contracts": ["Pyro5.client.Proxy._pyroInvoke", "Pyro5.client._RemoteMethod.__call__", _HR, "Pyro5.protocol.recv_stub",
+                      "Pyro5.socketutil.SocketConnection.recv", "Pyro5.socketutil.SocketConnection.send"],
+        "harness": ["replay/c03.py", "replay/dispatch.py"],
+        "explanation": "client side (_pyroInvoke): at most one request per call, carrying the 16-bit incremented sequence number; a call that returns has consumed "
+                       "exactly one whole RESULT message whose sequence number equals the request's and whose serializer matches, never returns a reply flagged as "
+                       "exception as a value; oneway returns None without reading; a communication error or KeyboardInterrupt after the request went out always "
+                       "releases the connection; any other exception leaves the reply stream message-aligned (nothing read or one whole reply consumed).  "
+                       "_RemoteMethod.__call__: between 1 and MAX_RETRIES+1 sends, a further send only after ConnectionClosedError/TimeoutError, the loop cannot run out "
+                       "silently (precondition MAX_RETRIES >= 0).  server side: a reply (result or error) carries the request's sequence number and serializer id, a non-oneway request gets exactly one, a oneway "
                        "request none, a non-batch request invokes at most one member; reads consume exactly one message (C06/C17 contracts).",
-        "assumptions": _COMMON_ASSUME + ["delivery semantics of real TCP, forged matching sequence numbers"],
+        "assumptions": _COMMON_ASSUME + ["delivery semantics of real TCP, forged matching sequence numbers",
+                                         "the induction over the call history of one proxy (aligned and nothing outstanding, or no connection) is a pencil composition of the per-call contracts",
+                                         "Proxy.__pyroCreateConnection is a declared contract (fresh aligned connection or exception)"],
     },
     "C15": {
         "modules": ["specs.socket_model", "specs.seqdict", "specs.opaque", "specs.storage_model", "contracts.nameserver_locks"],
